@@ -486,5 +486,7 @@ async fn run_prune(ctx: &Arc<RunCtx>) {
     }
     ctx.note("removed", obs.st.lock().unwrap().removed.to_string());
     pruner.stop();
-    pruner.join().await;
+    // the pruner may be waiting for a want_to_prune answer: closing the daser's channel fails it
+    drop(daser_cmds);
+    let _ = tokio::time::timeout(Duration::from_secs(60), pruner.join()).await;
 }
